@@ -10,13 +10,13 @@ from . import bip_common as B
 from .unify_common import struct_eq, build_pterm, same_state
 
 ANCHORS = ['next_solution_append', 'make_linked_list', 'recreate_variables']
-WITNESSES = {'all': ['succeeds', 'fails', 'bound-tail', 'nested-element', 'through-variable', 'out-bound-right', 'out-bound-wrong', 'in-a-rule-body']}
+WITNESSES = {'all': ['succeeds', 'fails', 'bound-tail', 'nested-element', 'through-variable', 'out-bound-right', 'out-bound-wrong', 'out-partial-list', 'in-a-rule-body']}
 OPTS = {'quick': {'selfcheck_mod': 25, 'budget_s': 280}, 'thorough': {'selfcheck_mod': 200, 'budget_s': 2400}}
 STEP_LIMIT = 120_000
 NATIVE_TIMEOUT = 5.0
 BOUNDS = {
     'quick': 'append(T1..Tn, Out), n = 1-3, each Ti from: a, symbolic i64, f(a), [], [b], [b, c], [[b]], [b, []], [b | $T] with $T bound to [c] or [], bound through a second variable, or bound to a list that itself ends in a bound tail, each also through a variable bound to it '
-             '(directly or via a second variable); Out unbound, bound to the right list, bound to a wrong list; asked twice; 120k-statement step limit (a spin shows as a hang); 30 programs with append in a rule body (arguments with variables inside complex terms and lists, filled in from the head), answers compared with the reference',
+             '(directly or via a second variable); Out unbound, bound to the right list, bound to a wrong list, bound to a list pattern of unbound variables with a tail variable (as many heads as elements, one less, one more); asked twice; 120k-statement step limit (a spin shows as a hang); 30 programs with append in a rule body (arguments with variables inside complex terms and lists, filled in from the head), answers compared with the reference',
     'thorough': 'n up to 4 and tails bound through a chain of two variables',
 }
 OUTSIDE = 'lists with an unbound tail variable as append input; arguments that are unbound variables'
@@ -34,7 +34,8 @@ def cases(tier, seed):
     for n in range(1, nmax + 1):
         pool = forms if n <= 2 else [(a, 0) for a in ARGS] if n == 3 else [(a, 0) for a in ARGS[:1] + ARGS[4:9]]
         for combo in itertools.product(pool, repeat=n):
-            for outk in (('unbound', 'right', 'wrong') if n <= 2 else ('unbound',)):
+            for outk in (('unbound', 'right', 'wrong', 'partial-eq', 'partial-less', 'partial-more') if n <= 2 else ('unbound',)):
+                if outk.startswith('partial') and any(c for _, c in combo): continue
                 out.append({'id': 'append(%s) out %s' % (', '.join('%s/%d' % (txt(a), c) for a, c in combo), outk),
                             'args': [[a, c] for a, c in combo], 'out': outk})
     from .. import progs as P
@@ -128,13 +129,21 @@ def run(drv, case):
         env.bind(out, ('plist', tuple(to_spec(x) for x in want), None)); tags.add('out-bound-right')
     elif case['out'] == 'wrong':
         env.bind(out, ('plist', tuple(to_spec(x) for x in want) + (('atom', 'zz'),), None)); tags.add('out-bound-wrong')
+    free = {out[1]}
+    if case['out'].startswith('partial'):
+        # Out is already a list pattern: k unbound head variables and a tail variable
+        k = len(want) + {'partial-eq': 0, 'partial-less': -1, 'partial-more': 1}[case['out']]
+        if k < 0: return {'tags': ['no-such-pattern'], 'nontrivial': False}
+        hs = [env.var('$P%d' % i) for i in range(k)]; pt = env.var('$PT')
+        env.bind(out, ('plist', tuple(hs), pt)); tags.add('out-partial-list')
+        free |= {h[1] for h in hs} | {pt[1]}
     kb = drv.kb([])
     before = drv.dumpss(env.ss)
     try:
         r1, r2 = B.run_goal(drv, kb, ('gb', 'append', tuple(terms) + (out,)), env.ss)
     except ScenarioEnd as e:
         raise Violation('append-%s' % e.why[0], '%s: %s' % (case['id'], e.why[1]))
-    expect = case['out'] != 'wrong'
+    expect = case['out'] not in ('wrong', 'partial-more')
     tags.add('succeeds' if expect else 'fails')
     if (r1.h is not None) != expect:
         raise Violation('append-outcome:' + case['out'], '%s: the goal %s; the concatenation is %s' % (case['id'], 'succeeds' if r1.h is not None else 'fails', R.show(wantl)))
@@ -155,10 +164,10 @@ def run(drv, case):
             raise Violation('append-wrong-list', '%s: Out = %s, the concatenation is %s' % (case['id'], R.show(got), R.show(wres)))
         # nothing but Out may be bound
         for i, e in enumerate(before):
-            if not struct_eq(m, e, after[i]) and not (e is None and i == out[1]):
+            if not struct_eq(m, e, after[i]) and not (e is None and i in free):
                 raise Violation('append-binds-other', '%s: variable %d changed' % (case['id'], i))
         for i in range(len(before), len(after)):
-            if after[i] is not None and i != out[1]:
+            if after[i] is not None and i not in free:
                 raise Violation('append-binds-other', '%s: variable %d got bound' % (case['id'], i))
     return {'tags': list(tags), 'note': case['id']}
 
